@@ -229,6 +229,7 @@ def extract_printed(stdout, tag):
     """All values printed with PrintT(<<tag, ...>>): bracket-matched, so that output
     interleaved by several workers or wrapped over several lines is still parsed."""
     out = []
+    stdout = re.sub(r'<<\s+"', '<<"', stdout)   # TLC wraps long tuples as `<< "TAG",\n ...`
     needle = '<<"%s"' % tag
     i = 0
     n = len(stdout)
@@ -304,7 +305,11 @@ def run_tlc(module, cfg_text, *, workers=None, timeout=3600, simulate=None, dept
         cfg = os.path.join(d, module + '.cfg')
         with open(cfg, 'w') as f:
             f.write(cfg_text)
-        cmd = ['java', '-XX:+UseParallelGC', '-Xmx8g']
+        if workers == 1:
+            cmd = ['java', '-XX:+UseSerialGC', '-Xmx6g', '-Xss128m']
+        else:
+            cmd = ['java', '-XX:+UseParallelGC', '-XX:ParallelGCThreads=%d' % min(workers, 4),
+                   '-Xmx8g', '-Xss128m']
         if dfs:
             cmd.append('-Dtlc2.tool.queue.IStateQueue=StateDeque')
         cmd += list(jvm)
